@@ -389,7 +389,7 @@ class kFlowDecomp(pathmodel.AbstractPathModelDAG):
                         self.edge_vars[(self.G.source, v, i)]
                         for v in self.G.successors(self.G.source)
                 ) for i in range(self.k)
-            ) <= self.original_k,
+            ) <= int(self.original_k),  # (as a Python int: the solver takes no numpy integer as a right-hand side)
             name="max_paths_original_k_paths",
         )
 
